@@ -178,10 +178,11 @@ func vfC20(c *hx.Ctx) {
 		"a state is non-trivial when it is wrapped (head+len > cap) or was produced by a growth step; every transition applies one " +
 		"operation of {Push, Pop, Clear, Discard(0..len+1), ForEach/ForEachReverse (stop after k for every k, mutate)} to an exact copy and to a slice model")
 	c.Assume("the ring buffer is generic and cannot inspect element values, so relabelling elements is behaviour-preserving")
-	maxLen := hx.Pick(c, 24, 40)
+	maxLen := hx.Pick(c, 48, 144)
+	sizes := []int{0, 1, 8, 9, 10, 12, 16, 48, 100}
 	if !c.Skip("bfs") && c.Shard == 0 {
 		start := time.Now()
-		u := &hx.Unit{Name: "bfs", Kind: "bfs", Params: map[string]any{"max_len": maxLen, "initial_sizes": []int{0, 1, 8, 9, 16}}, Exhaustive: true}
+		u := &hx.Unit{Name: "bfs", Kind: "bfs", Params: map[string]any{"max_len": maxLen, "initial_sizes": sizes}, Exhaustive: true}
 		seen := map[vfRingKey]bool{}
 		var queue []*vfRingState
 		add := func(s *vfRingState) {
@@ -200,7 +201,7 @@ func vfC20(c *hx.Ctx) {
 				u.NonTrivial++
 			}
 		}
-		for _, sz := range []int{0, 1, 8, 9, 16} {
+		for _, sz := range sizes {
 			add(&vfRingState{r: NewRingBuffer[int](sz), path: fmt.Sprintf("New(%d)", sz)})
 		}
 		viol := func(s *vfRingState, op, msg string) {
